@@ -5,6 +5,11 @@
 mod util;
 mod vals;
 mod c13;
+mod c19;
+mod c09;
+mod c18;
+mod c17;
+mod c06;
 mod c11;
 mod c15;
 mod c08;
@@ -62,6 +67,11 @@ fn main() {
     let mut run = Run::new(&prop, seed, tier);
     match (mode.as_str(), prop.as_str()) {
         ("corr", "C13") => c13::corr(&mut run),
+        ("corr", "C19") => c19::corr(&mut run),
+        ("corr", "C09") => c09::corr(&mut run),
+        ("corr", "C18") => c18::corr(&mut run),
+        ("corr", "C17") => c17::corr(&mut run),
+        ("corr", "C06") => c06::corr(&mut run),
         ("corr", "C11") => c11::corr(&mut run),
         ("corr", "C15") => c15::corr(&mut run),
         ("corr", "C08") => c08::corr(&mut run),
